@@ -10,6 +10,39 @@ Section OpsR.
   (* value_to_bin_scalar_bound: always a bin of the grid; the bin of the value when the value is inside; the first /
      last bin for values below / above a non-periodic grid.  (In a periodic dimension `%=` keeps the sign of a
      negative index, which is then clamped to 0, not wrapped to the last bins.) *)
+  Lemma rem_wrap_mod (i n : Z) : (0 < n)%Z -> (let r := Z.rem i n in if (r <? 0)%Z then (r + n)%Z else r) = (i mod n)%Z.
+  Proof.
+    intros Hn. cbv zeta.
+    destruct (Z_le_gt_dec 0 i) as [Hi|Hi].
+    - rewrite Z.rem_mod_nonneg by lia. pose proof (Z.mod_pos_bound i n Hn). destruct (Z.ltb_spec (i mod n) 0); lia.
+    - pose proof (Z.rem_opp_l i n ltac:(lia)) as Ho.
+      assert (He : Z.rem i n = (- Z.rem (- i) n)%Z) by lia.
+      rewrite He, Z.rem_mod_nonneg by lia.
+      pose proof (Z.mod_pos_bound (- i) n Hn) as Hm.
+      destruct (Z.eq_dec ((- i) mod n) 0) as [Hz|Hnz].
+      + rewrite Hz. cbn. pose proof (Z_mod_zero_opp_full (- i) n Hz) as Hop. replace (- - i)%Z with i in Hop by lia. lia.
+      + destruct (Z.ltb_spec (- ((- i) mod n)) 0); [|lia].
+        pose proof (Z_mod_nz_opp_full (- i) n Hnz) as Hop. replace (- - i)%Z with i in Hop by lia. lia.
+  Qed.
+
+  (* periodic dimension: the bounded bin is the bin that contains the value modulo the period *)
+  Lemma bin_bound_periodic (l w x : R) (n : Z) : 0 < w -> (0 < n)%Z ->
+    value_to_bin_bound Rops true l w n x = (value_to_bin Rops l w x mod n)%Z /\
+    exists k : Z, l + IZR (value_to_bin_bound Rops true l w n x) * w <= x - IZR k * (IZR n * w)
+                  < l + (IZR (value_to_bin_bound Rops true l w n x) + 1) * w.
+  Proof.
+    intros Hw Hn. unfold value_to_bin_bound. set (i := value_to_bin Rops l w x).
+    rewrite rem_wrap_mod by auto. pose proof (Z.mod_pos_bound i n Hn) as Hm.
+    assert (Hc : (if (i mod n <? 0)%Z then 0%Z else if (i mod n >=? n)%Z then (n - 1)%Z else (i mod n)%Z) = (i mod n)%Z).
+    { destruct (Z.ltb_spec (i mod n) 0); [lia|]. destruct (Z.geb_spec (i mod n) n); lia. }
+    rewrite Hc. split; [reflexivity|]. exists (i / n)%Z.
+    assert (Hdiv : (i = n * (i / n) + i mod n)%Z) by (apply Z.div_mod; lia).
+    assert (Hb : value_to_bin Rops l w x = i) by reflexivity. apply bin_unique in Hb; auto.
+    assert (Hia : IZR i = IZR n * IZR (i / n) + IZR (i mod n)).
+    { rewrite <- mult_IZR, <- plus_IZR. f_equal. exact Hdiv. }
+    rewrite Hia in Hb. nra.
+  Qed.
+
   Lemma bin_bound_spec (p : bool) (l w x : R) (n : Z) : 0 < w -> (0 < n)%Z ->
     (0 <= value_to_bin_bound Rops p l w n x < n)%Z /\
     (l <= x < l + IZR n * w -> value_to_bin_bound Rops p l w n x = value_to_bin Rops l w x) /\
@@ -17,15 +50,16 @@ Section OpsR.
     (p = false -> l + IZR n * w <= x -> value_to_bin_bound Rops p l w n x = (n - 1)%Z).
   Proof.
     intros Hw Hn. destruct (outside_no_bin l w x n Hw) as (Hlo & Hhi & Hin).
-    unfold value_to_bin_bound. set (i := value_to_bin Rops l w x) in *.
-    split; [|split; [|split]].
-    - set (j := if p then Z.rem i n else i).
-      destruct (Z.ltb_spec j 0); [lia|]. destruct (Z.geb_spec j n); lia.
-    - intros Hx. specialize (Hin Hx).
-      assert (Hj : (if p then Z.rem i n else i) = i) by (destruct p; auto; apply Z.rem_small; lia).
-      rewrite Hj. destruct (Z.ltb_spec i 0); [lia|]. destruct (Z.geb_spec i n); lia.
-    - intros -> Hx. specialize (Hlo Hx). destruct (Z.ltb_spec i 0); lia.
-    - intros -> Hx. specialize (Hhi Hx). destruct (Z.ltb_spec i 0); [lia|]. destruct (Z.geb_spec i n); lia.
+    destruct p.
+    - destruct (bin_bound_periodic l w x n Hw Hn) as [Hp _]. rewrite Hp.
+      pose proof (Z.mod_pos_bound (value_to_bin Rops l w x) n Hn).
+      split; [lia|]. split; [intros Hx; apply Z.mod_small; apply Hin; exact Hx|]. split; intros; discriminate.
+    - unfold value_to_bin_bound. set (i := value_to_bin Rops l w x) in *.
+      split; [|split; [|split]].
+      + destruct (Z.ltb_spec i 0); [lia|]. destruct (Z.geb_spec i n); lia.
+      + intros Hx. specialize (Hin Hx). destruct (Z.ltb_spec i 0); [lia|]. destruct (Z.geb_spec i n); lia.
+      + intros _ Hx. specialize (Hlo Hx). destruct (Z.ltb_spec i 0); lia.
+      + intros _ Hx. specialize (Hhi Hx). destruct (Z.ltb_spec i 0); [lia|]. destruct (Z.geb_spec i n); lia.
   Qed.
 
   (* value_to_bin_scalar_fraction: the position of the value inside its bin *)
@@ -160,3 +194,56 @@ Section MapGridR.
     - rewrite Hl'. unfold bin_to_value, nhalf; cbn. lra.
   Qed.
 End MapGridR.
+
+(* bin_distance_from_boundaries: never above the running minimum, and non-negative exactly when every value of a
+   non-periodic dimension lies between its boundaries *)
+Section BinDistance.
+  Local Open Scope R_scope.
+
+  Lemma signed_bins_lower (x l w : R) : 0 < w -> signed_bins Rops (nltb Rops x l) x l w = (x - l) / w.
+  Proof.
+    intros Hw. unfold signed_bins. rewrite nabs_R. cbn. unfold Rltb. destruct (Rlt_dec x l).
+    - rewrite Rabs_left by lra. field. lra.
+    - rewrite Rabs_right by lra. reflexivity.
+  Qed.
+  Lemma signed_bins_upper (x u w : R) : 0 < w -> signed_bins Rops (nltb Rops u x) x u w = (u - x) / w.
+  Proof.
+    intros Hw. unfold signed_bins. rewrite nabs_R. cbn. unfold Rltb. destruct (Rlt_dec u x).
+    - rewrite Rabs_right by lra. field. lra.
+    - rewrite Rabs_left1 by lra. field. lra.
+  Qed.
+
+  Fixpoint all_inside (per : list bool) (lower upper x : list R) : Prop :=
+    match per, lower, upper, x with
+    | p :: ps, l :: ls, u :: us, xi :: xs => (p = false -> l <= xi <= u) /\ all_inside ps ls us xs
+    | _, _, _, _ => True
+    end.
+
+  Lemma bin_distance_sign : forall per lower upper w x acc,
+    Forall (fun wi => 0 < wi) w -> length lower = length per -> length upper = length per -> length w = length per ->
+    length x = length per ->
+    (0 <= bin_distance Rops per lower upper w x acc <-> 0 <= acc /\ all_inside per lower upper x).
+  Proof.
+    induction per as [|p ps IH]; intros [|l ls] [|u us] [|wi ws] [|xi xs] acc Hw H1 H2 H3 H4; try discriminate.
+    - cbn. tauto.
+    - inversion Hw as [|? ? Hwi Hws]; subst. cbn [bin_distance all_inside]. cbn [length] in *.
+      destruct p.
+      + rewrite IH by (auto; lia). split; intros [A B]; (split; [exact A|]); [split; [discriminate | exact B] | apply B].
+      + rewrite signed_bins_lower, signed_bins_upper by auto.
+        rewrite IH by (auto; lia). cbn. unfold Rltb.
+        assert (E1 : 0 <= (xi - l) / wi <-> l <= xi).
+        { split; intros H.
+          - apply Rmult_le_compat_r with (r := wi) in H; [|lra]. unfold Rdiv in H. rewrite Rmult_assoc, Rinv_l in H by lra. lra.
+          - apply Rmult_le_pos; [lra | left; apply Rinv_0_lt_compat; lra]. }
+        assert (E2 : 0 <= (u - xi) / wi <-> xi <= u).
+        { split; intros H.
+          - apply Rmult_le_compat_r with (r := wi) in H; [|lra]. unfold Rdiv in H. rewrite Rmult_assoc, Rinv_l in H by lra. lra.
+          - apply Rmult_le_pos; [lra | left; apply Rinv_0_lt_compat; lra]. }
+        destruct (Rlt_dec ((xi - l) / wi) acc) as [Ha|Ha];
+          [destruct (Rlt_dec ((u - xi) / wi) ((xi - l) / wi)) as [Hb|Hb] | destruct (Rlt_dec ((u - xi) / wi) acc) as [Hb|Hb]];
+          split; intros [A B]; repeat split; auto; try tauto; try lra;
+          try (intros _; split; [apply E1 | apply E2]; lra);
+          try (destruct B as [B1 B2]; specialize (B1 eq_refl); destruct B1 as [B11 B12]; apply E1 in B11; apply E2 in B12; lra);
+          try (destruct B as [B1 B2]; exact B2).
+  Qed.
+End BinDistance.
